@@ -527,6 +527,17 @@ def monitor_c02(se, stats):
         _rb = _reborn(st, cur)
         for qn in cur["queues"]:
             if prev is None or qn not in prev["queues"] or qn in _rb:
+                if st["op"] == "RESTART" and prev is not None and qn in prev["queues"]:
+                    # a durable queue that comes back from a (graceful) restart is, for its messages, the queue it was:
+                    # what was settled stays settled, what was delivered before is a redelivery now
+                    ob = qborn.get(qn, 0)
+                    for (uid, q2, b) in list(settled):
+                        if q2 == qn and b == ob:
+                            settled.add((uid, qn, i))
+                    for (uid, q2, b), n in list(delivered_from.items()):
+                        if q2 == qn and b == ob:
+                            delivered_from[(uid, qn, i)] = n
+                    stats["queues_followed_over_restart"] = stats.get("queues_followed_over_restart", 0) + 1
                 qborn[qn] = i
         for g in ([x.strip().split() for x in st["op"][6:].split("|")] if f[0] == "MULTI" else [f]):
             if g[0] == "PUB":
